@@ -137,9 +137,13 @@ def pure_combinators(repo):
         for name, f in c.methods.items():
             if name.startswith('__'):
                 continue
-            rets = [n for n in ast.walk(f.node) if isinstance(n, ast.Return) and n.value is not None]
+            # the method's own returns: those of a helper defined inside it are the helper's
+            inner = {id(x) for g in ast.walk(f.node) if isinstance(g, (ast.FunctionDef, ast.Lambda)) and g is not f.node for x in ast.walk(g)}
+            rets = [n for n in ast.walk(f.node) if isinstance(n, ast.Return) and n.value is not None and id(n) not in inner]
+            # a method that stores into self or into one of its arguments works by effect
+            params = set(f.params()) | {'self'}
             stores = [n for n in ast.walk(f.node) if isinstance(n, (ast.Assign, ast.AugAssign)) and any(
-                isinstance(t, (ast.Attribute, ast.Subscript)) and is_name(getattr(t, 'value', None), 'self')
+                isinstance(t, (ast.Attribute, ast.Subscript)) and isinstance(getattr(t, 'value', None), ast.Name) and t.value.id in params
                 for t in (n.targets if isinstance(n, ast.Assign) else [n.target]))]
             if rets and not stores:
                 pure.add(name)
